@@ -1,4 +1,6 @@
 import Rtsp.Props.C15
+import Rtsp.Props.Bridge.Time
+import Rtsp.Props.Bridge.Recv
 #print axioms Rtsp.C15.facts_shape
 #print axioms Rtsp.C15.pts_diff_eq_sum_of_signed_deltas
 #print axioms Rtsp.C15.pts_step_exact
@@ -28,3 +30,6 @@ import Rtsp.Props.C15
 #print axioms Rtsp.C15.float_ticks_bounds
 #print axioms Rtsp.C15.sender_float_product_within_tick
 #print axioms Rtsp.C15.packet_ntp_within_tick_report
+#print axioms Rtsp.Bridge.Time.decode_eq
+#print axioms Rtsp.Bridge.Time.multiplyAndDivide_eq
+#print axioms Rtsp.Bridge.Recv.ntpTimeDiff_eq
